@@ -59,30 +59,44 @@ def sigAB : List Param := [⟨['a'], 0⟩, ⟨['b'], 1⟩]
 
 def rev (l : List Nat) : List Nat := l.reverse
 
-/-- the model variant probed on the current tree: unnamed, shadow, void repaired; cross not -/
-def probed : Cfg := { unnamedFixed := true, shadowFixed := true, crossFixed := false, voidFixed := true }
+/-- the model variant probed on the current tree (18449d4): every repair landed except the one for
+two parameter lists of uncurry that share a user-written name (known finding F6b) -/
+def probed : Cfg :=
+  { unnamedFixed := true, shadowFixed := true, crossFixed := false, voidFixed := true, prefixFixed := true,
+    universeFixed := true, resultsFixed := true }
 
 private theorem okNames (cfg : Cfg) {ps : List Param} (hv : ValidSig ps) (hs : Side cfg [fName] ps) :
     NamesOk [fName] (effParams cfg [fName] paramPrefix ps) :=
-  effParams_namesOk cfg (by simp [paramPrefix]) (by simp [fName, paramPrefix]) ps hv hs
+  effParams_namesOk cfg (by simp [paramPrefix]) (by simp [fName, paramPrefix]) avoidOk_f ps hv hs
 
 /-! ### `derive.RenameBlankIdentifier` -/
 
-/-- whenever the `param_<i>` scheme renames (some parameter is `_`), the resulting names are pairwise
-distinct and every one can be referred to — including when the user's own names already look like
-`param_<j>` -/
-theorem rename_distinct (ps : List Param) (hv : ValidSig ps) (hnamed : ∀ n ∈ names ps, n ≠ []) :
-    (names (renameBlank ps)).Nodup ∧ ∀ n ∈ names (renameBlank ps), usable n = true := by
-  have h := namesOk_renameBlankWith (pre := paramPrefix) (avoid := []) (by simp [paramPrefix]) ps hv
+/-- whenever the `param_<i>` scheme renames (some parameter is unusable: `_`, and — per repaired
+variant — unnamed, `f`, `err`, `param_…`, `innerParam_…`, a predeclared identifier), the resulting names
+are pairwise distinct and every one can be referred to, including when the user's own names already
+look like `param_<j>`; the unusable names are gone -/
+theorem rename_distinct (cfg : Cfg) (ps : List Param) (hv : ValidSig ps)
+    (hnamed : cfg.unnamedFixed = true ∨ ∀ n ∈ names ps, n ≠ []) :
+    (names (renameBlank cfg ps)).Nodup ∧ (∀ n ∈ names (renameBlank cfg ps), usable n = true) ∧
+    (hasBlank cfg ps = true → ∀ n ∈ names (renameBlank cfg ps), unusable cfg n = false ∨ ∃ j, n = genName paramPrefix j) := by
+  have h := namesOk_renameBlankWith cfg (pre := paramPrefix) (avoid := []) (by simp [paramPrefix]) ps hv
     (fun n hn e => by
-      rcases mem_names_renameBlankWith hn with ⟨j, ej⟩ | hm
+      rcases mem_names_renameBlankWith hn with ⟨j, ej⟩ | ⟨hm, hu⟩
       · have := genName_length paramPrefix j; rw [← ej, e] at this; simp at this
-      · exact hnamed n hm e)
+      · rcases hnamed with hf | hnamed
+        · subst e; simp [unusable, hf] at hu
+        · exact hnamed n hm e)
     (fun _ _ h => by cases h)
-  exact ⟨h.2.1, h.1⟩
+  refine ⟨h.2.1, h.1, fun _ n hn => ?_⟩
+  rcases mem_names_renameBlankWith hn with ⟨j, ej⟩ | ⟨_, hu⟩
+  · exact Or.inr ⟨j, ej⟩
+  · exact Or.inl hu
 
-example : hasBlank sigPre = true ∧ names (renameBlank sigPre) = [paramPrefix ++ ['0'], paramPrefix ++ ['1']] := by decide
+example : hasBlank {} sigPre = true ∧ names (renameBlank {} sigPre) = [paramPrefix ++ ['0'], paramPrefix ++ ['1']] := by decide
 example : ValidSig sigPre ∧ ∀ n ∈ names sigPre, n ≠ [] := by decide
+/-- on the probed variant `func(string T0, param_7 T1, nil T2)` becomes `func(param_0, param_1, param_2)` -/
+example : names (renameBlank probed [⟨['s','t','r','i','n','g'], 0⟩, ⟨paramPrefix ++ ['7'], 1⟩, ⟨['n','i','l'], 2⟩])
+    = [paramPrefix ++ ['0'], paramPrefix ++ ['1'], paramPrefix ++ ['2']] := by decide
 
 /-! ### Curry -/
 
@@ -275,23 +289,74 @@ example : wrapperWellFormed (uncurryTm Cfg.current [⟨['a'], 0⟩] [⟨['a'], 1
 
 /-! ### Uncurry of Curry -/
 
-/-- `deriveUncurry(deriveCurry(f))` behaves as `f` -/
+/-- `deriveUncurry(deriveCurry(f))` behaves as `f`. Uncurry sees the (already renamed) signature of the
+curry wrapper and renames it once more with its own prefixes: `hs2` is the naming condition of that
+second round (on the pinned commit it followed from the first; since `param_…` is itself unusable it is
+a statement of its own) -/
 theorem uncurry_curry_partial {α} (cfg : Cfg) (ps : List Param) (f : List α → List α) (a : α) (rest : List α)
-    (hlen : ps.length = rest.length + 1) (hv : ValidSig ps) (hs : Side cfg [fName] ps) :
+    (hlen : ps.length = rest.length + 1) (hv : ValidSig ps) (hs : Side cfg [fName] ps)
+    (hs2 : NamesOk [fName]
+      ((uncurryParams cfg (currySig (effParams cfg [fName] paramPrefix ps)).1 (currySig (effParams cfg [fName] paramPrefix ps)).2).1 ++
+       (uncurryParams cfg (currySig (effParams cfg [fName] paramPrefix ps)).1 (currySig (effParams cfg [fName] paramPrefix ps)).2).2)) :
     runUncurryCurry cfg ps f (a :: rest) = Spec.callOnce f (a :: rest) :=
-  runUncurryCurry_eq cfg ps f a rest hlen (okNames cfg hv hs)
+  runUncurryCurry_eq cfg ps f a rest hlen (okNames cfg hv hs) hs2
 
 example : runUncurryCurry Cfg.current sigABC rev [1, 2, 3] = some ([[1, 2, 3]], [3, 2, 1]) :=
   uncurry_curry_partial Cfg.current sigABC rev 1 [2, 3] rfl (by decide) (side_current (by decide) (by decide))
+    (by unfold NamesOk; decide)
 
+/-- full strength on every variant where unnamed, `f`/`err` and the generator's own prefixes are unusable -/
 theorem uncurry_curry_fixed {α} (cfg : Cfg) (hu : cfg.unnamedFixed = true) (hs : cfg.shadowFixed = true)
+    (hpf : cfg.prefixFixed = true)
     (ps : List Param) (f : List α → List α) (a : α) (rest : List α)
     (hlen : ps.length = rest.length + 1) (hv : ValidSig ps) :
-    runUncurryCurry cfg ps f (a :: rest) = Spec.callOnce f (a :: rest) :=
-  uncurry_curry_partial cfg ps f a rest hlen hv (side_of_flags hu hs _ _)
+    runUncurryCurry cfg ps f (a :: rest) = Spec.callOnce f (a :: rest) := by
+  have hok := okNames cfg hv (side_of_flags hu hs [fName] ps)
+  refine uncurry_curry_partial cfg ps f a rest hlen hv (side_of_flags hu hs _ _) ?_
+  have he : (currySig (effParams cfg [fName] paramPrefix ps)).1 ++ (currySig (effParams cfg [fName] paramPrefix ps)).2
+      = effParams cfg [fName] paramPrefix ps := List.take_append_drop 1 _
+  rw [← he] at hok
+  refine uncurryParams_namesOk_prefix cfg hu hs hpf _ _ (validSig_of_namesOk hok.left) (validSig_of_namesOk hok.right) ?_
+  intro n h1 h2
+  have := hok.2.1
+  rw [names_append] at this
+  exact absurd rfl ((List.nodup_append.1 this).2.2 n h1 n h2)
 
 example : runUncurryCurry probed sigUnnamed rev [1, 2] = some ([[1, 2]], [2, 1]) :=
-  uncurry_curry_fixed probed rfl rfl sigUnnamed rev 1 [2] rfl (by decide)
+  uncurry_curry_fixed probed rfl rfl rfl sigUnnamed rev 1 [2] rfl (by decide)
+
+/-- Uncurry on such a variant: the side condition that is left is the user's own clash — a name
+written in BOTH parameter lists that is not renamed anyway (known finding F6b); the clashes through
+the generator's own `param_<i>` / `innerParam_<i>` names are gone -/
+theorem uncurry_spec_prefix {α} (cfg : Cfg) (hu : cfg.unnamedFixed = true) (hs : cfg.shadowFixed = true)
+    (hpf : cfg.prefixFixed = true)
+    (outer inner : List Param) (f : List α → List α) (a : α) (rest : List α)
+    (hlen1 : outer.length = 1) (hlen2 : inner.length = rest.length)
+    (hvo : ValidSig outer) (hvi : ValidSig inner)
+    (hd : ∀ n ∈ names outer, n ∈ names inner → unusable cfg n = true) :
+    runUncurry cfg outer inner f (a :: rest) = Spec.uncurrySpec f (a :: rest) :=
+  runUncurry_eq cfg outer inner f a rest hlen1 hlen2 (uncurryParams_namesOk_prefix cfg hu hs hpf outer inner hvo hvi hd)
+
+/-- `func(innerParam_0 A) func(_ B, param_0 C) R` and `func(_ A) func(_ B) R` are fine now -/
+example : runUncurry probed [⟨innerPrefix ++ ['0'], 0⟩] [⟨['_'], 1⟩, ⟨paramPrefix ++ ['0'], 2⟩] rev [1, 2, 3]
+    = some ([[1], [1, 2, 3]], [3, 2, 1]) :=
+  uncurry_spec_prefix probed rfl rfl rfl _ _ rev 1 [2, 3] rfl rfl (by decide) (by decide) (by decide)
+example : wrapperWellFormed (uncurryTm probed [⟨innerPrefix ++ ['0'], 0⟩] [⟨['_'], 1⟩] 1) = true := by decide
+/-- … and `func(a A) func(a B) R` still is not -/
+example : wrapperWellFormed (uncurryTm probed [⟨['a'], 0⟩] [⟨['a'], 1⟩] 1) = false := by decide
+
+/-- named results: when one of them bears a name the wrappers use (`f`, `param_…`, `innerParam_…`) all
+result names are dropped (`resultsFixed`), and nothing is left that could hide or duplicate a name -/
+theorem results_stripped (cfg : Cfg) (hr : cfg.resultsFixed = true) (outerPs inner rs : List Name)
+    (hc : rs.any capturing = true) (hin : nodupB (inner.filter fun n => n != [] && n != blank) = true) :
+    resultsOk outerPs inner (effResults cfg rs) = true :=
+  resultsOk_stripped cfg hr outerPs inner rs hc hin
+
+example : resultsOk [['a']] [['b']] (effResults probed [['f']]) = true := results_stripped probed rfl _ _ _ (by decide) (by decide)
+/-- before that repair a result called `f` hid the wrapped function, `param_0` collided with a renamed parameter -/
+example : resultsOk [['a']] [['b']] (effResults {} [['f']]) = false ∧
+    resultsOk [] [paramPrefix ++ ['0'], ['b']] (effResults {} [paramPrefix ++ ['0']]) = false ∧
+    resultsOk [['a']] [['b']] (effResults {} [['e', 'r', 'r']]) = true := by decide
 
 /-- on a variant with the naming and the result-less defects repaired every curry / flip / apply
 wrapper compiles, for every signature -/
